@@ -186,4 +186,26 @@ theorem families_cover_registry :
     (∀ a ∈ wrapAlgs, a.name ≠ "dir" → a.p1 = some "wrapKey" ∧ a.p2 = some "unwrapKey") := by
   decide
 
+/-- **Direct encryption and direct key agreement have no encrypted key** (after fix F30; RFC 7516 5.2 step 10): a
+    recipient whose `encrypted_key` is anything but absent or the empty string is not unwrapped — so that "any change
+    to the recipient's encrypted key makes decryption fail" holds for `dir` and `ECDH-ES` too, where the member takes
+    no part in the computation -/
+theorem direct_refuses_encrypted_key (P : Prims) (name : String) (fuel : Nat) (jwe rcp jwk cek : Json) (rnd : Bs)
+    (hf : wrapFamily name = some .dir ∨ ∃ d, wrapFamily name = some (.ecdhes none d))
+    (hne : noEncryptedKey rcp = false) :
+    unw P (fuel + 1) name jwe rcp jwk cek rnd = none := by
+  rcases hf with hf | ⟨d, hf⟩
+  · cases cek <;> simp [unw, hf, hne]
+  · cases cek with
+    | obj c =>
+      simp only [unw, hf, hne]
+      simp only [Option.bind_eq_none_iff]
+      intro hdr _ epk _ exc _ der _
+      simp
+    | _ => simp [unw, hf]
+
+/-- the guard is not vacuous either way -/
+example : noEncryptedKey (.obj [("encrypted_key", .str "AAAA")]) = false ∧ noEncryptedKey (.obj [("encrypted_key", .str "")]) = true ∧
+    noEncryptedKey (.obj []) = true ∧ noEncryptedKey (.obj [("encrypted_key", .int 0)]) = false := by decide
+
 end Jose.Props.C02
